@@ -40,7 +40,7 @@ META = {
         "All rules analyse parsers/directives.py after *inlining* its private helpers: single-exit helpers at `x = helper(...)` call sites (parameters "
         "bound, locals renamed, `return e` turned into the assignment of the call statement) and helpers with any number of returns in tail position "
         "(`return helper(...)`), helpers with early returns at `x = helper(...)` sites (the returns are lowered to if/else nesting without duplicating code), "
-        "and pure predicate helpers (straight-line string tests) substituted as expressions; line numbers kept, nothing executed, "
+        "a NamedTuple result unpacked in field order, and pure predicate helpers (string tests and regex matches; a parameter used once may take any argument) (straight-line string tests) substituted as expressions; line numbers kept, nothing executed, "
         "so a function split into "
         "helpers is judged as the one function it is equivalent to; roles (option-spec lookup, converter call, validation loop, result dict, "
         "warnings list, block text, remaining content) are found by data flow, never by name. "
@@ -926,6 +926,9 @@ def _single_exit_helper(fn: ast.FunctionDef) -> bool:
     return True
 
 
+NAMEDTUPLES: dict[str, list[str]] = {}  # class name -> field names, of the module being inlined (set by _build_inlined)
+
+
 def _tail_helper(fn: ast.FunctionDef) -> bool:
     """A private module-level function that may be substituted for `return fn(...)` (any number of returns)."""
     if not fn.name.startswith("_") or fn.name.startswith("__") or fn.decorator_list:
@@ -1001,8 +1004,18 @@ def _inline_call(stmt: ast.stmt, call: ast.Call, fn: ast.FunctionDef, prefix: st
             new = [ast.Expr(value=val)]
         else:
             tgt = stmt.targets[0] if isinstance(stmt, ast.Assign) else stmt.target
-            if isinstance(tgt, ast.Tuple) and isinstance(val, ast.Tuple) and len(tgt.elts) == len(val.elts) and all(isinstance(e, ast.Name) for e in tgt.elts):
-                new = [ast.Assign(targets=[copy.deepcopy(t_)], value=v_) for t_, v_ in zip(tgt.elts, val.elts)]
+            vals = None
+            if isinstance(val, ast.Tuple):
+                vals = list(val.elts)
+            elif isinstance(val, ast.Call) and isinstance(val.func, ast.Name) and val.func.id in NAMEDTUPLES and not any(isinstance(x, ast.Starred) for x in val.args) and not any(k_.arg is None for k_ in val.keywords):
+                # a NamedTuple result is unpacked in field order
+                flds = NAMEDTUPLES[val.func.id]
+                byname = {k_.arg: k_.value for k_ in val.keywords}
+                vals = [val.args[i] if i < len(val.args) else byname.get(fn_) for i, fn_ in enumerate(flds)]
+                if any(v_ is None for v_ in vals) or len(val.args) > len(flds):
+                    vals = None
+            if isinstance(tgt, ast.Tuple) and vals is not None and len(tgt.elts) == len(vals) and all(isinstance(e, ast.Name) for e in tgt.elts):
+                new = [ast.Assign(targets=[copy.deepcopy(t_)], value=v_) for t_, v_ in zip(tgt.elts, vals)]
             else:
                 new = [ast.Assign(targets=[copy.deepcopy(tgt)], value=val)]
         for n in new:
@@ -1107,7 +1120,7 @@ def _inline_block(stmts: list, helpers: dict, counter: list) -> tuple[list, bool
 PURE_CALLS = {
     "lstrip", "rstrip", "strip", "startswith", "endswith", "lower", "upper", "casefold", "isspace", "isdigit", "isalpha", "isalnum",
     "removeprefix", "removesuffix", "find", "rfind", "count", "splitlines", "split", "partition", "rpartition", "expandtabs",
-    "len", "bool", "str", "isinstance", "any", "all", "min", "max",
+    "len", "bool", "str", "isinstance", "any", "all", "min", "max", "match", "fullmatch", "search",
 }
 
 
@@ -1189,7 +1202,10 @@ def _inline_predicates(tree: ast.Module) -> bool:
     class T(ast.NodeTransformer):
         def visit_Call(self, n):
             self.generic_visit(n)
-            if isinstance(n.func, ast.Name) and n.func.id in preds and not n.keywords and len(n.args) == len(preds[n.func.id][0]) and all(isinstance(x, (ast.Name, ast.Constant)) for x in n.args):
+            if isinstance(n.func, ast.Name) and n.func.id in preds and not n.keywords and len(n.args) == len(preds[n.func.id][0]) and all(
+                isinstance(x, (ast.Name, ast.Constant)) or sum(1 for y in ast.walk(preds[n.func.id][1]) if isinstance(y, ast.Name) and y.id == p_) <= 1
+                for p_, x in zip(preds[n.func.id][0], n.args)
+            ):
                 params, expr = preds[n.func.id]
                 env = dict(zip(params, n.args))
                 new = copy.deepcopy(expr)
@@ -1224,6 +1240,10 @@ def _build_inlined(corpus: Corpus) -> Corpus:
 
     m = corpus.mod(MOD)
     tree = ast.parse(m.src)
+    NAMEDTUPLES.clear()
+    for cd in tree.body:
+        if isinstance(cd, ast.ClassDef) and any((dotted(b_) or "").rsplit(".", 1)[-1] == "NamedTuple" for b_ in cd.bases):
+            NAMEDTUPLES[cd.name] = [st_.target.id for st_ in cd.body if isinstance(st_, ast.AnnAssign) and isinstance(st_.target, ast.Name)]
     any_change = _inline_predicates(tree)
     for _ in range(3):
         funcs = [n for n in tree.body if isinstance(n, ast.FunctionDef)]
@@ -2643,7 +2663,8 @@ def r4_one_validation_path(corpus: Corpus, rep: Report, tier: str):
     for c_ in ast.walk(dash_test):
         rc_ = _regex_call(c_, f)
         if rc_ is not None and rc_[2] in ("match", "fullmatch") and _regex_first_char_style(rc_[0]) == "---":
-            w_ = _whole_line_regex(rc_[0], 0, anchored_start=True)
+            # fullmatch anchors both ends of its subject (the first line): blanks-only behind the dashes is what remains to show
+            w_ = _whole_line_regex(rc_[0] + ("$" if rc_[2] == "fullmatch" else ""), 0, anchored_start=True)
             verdict_d = ("ok", rc_[0]) if w_ is True else (("bad", f"the pattern {rc_[0]!r} also matches a longer first line") if w_ is False else ("error", rc_[0]))
         elif isinstance(c_, ast.Call) and isinstance(c_.func, ast.Attribute) and c_.func.attr == "startswith" and c_.args and isinstance(c_.args[0], ast.Constant) and c_.args[0].value == "---" and verdict_d is None:
             verdict_d = ("bad", "`startswith('---')` accepts every first line that merely begins with three dashes")
